@@ -537,11 +537,27 @@ func (m *model) apply(s0 *mstate, ev *mev) []*mstate {
 				may = true // no cached value, but an answer was seen: the statement allows either
 			}
 		}
-		canFall := (j == s.active || (j < s.active && m.relax&relaxInactiveFail != 0)) && s.active+1 < m.nsrv
-		if canFall && (must || may) {
+		// Strict: only a failure of the active server moves the client to the
+		// next server (channels then always form a prefix of the list).
+		// Diagnosis of fallback_on_inactive_server_failure: a failure of any
+		// server j creates the first server after j that has no channel.
+		next := -1
+		if j == s.active && s.active+1 < m.nsrv {
+			next = s.active + 1
+		}
+		if m.relax&relaxInactiveFail != 0 {
+			next = -1
+			for i := j + 1; i < m.nsrv; i++ {
+				if s.gen[i] < 0 {
+					next = i
+					break
+				}
+			}
+		}
+		if next >= 0 && (must || may) {
 			f := s.clone()
-			if m.emitBuild(f, f.active+1, ev) {
-				f.active++
+			if m.emitBuild(f, next, ev) {
+				f.active = next
 				out = append(out, f)
 			}
 			if must {
@@ -694,6 +710,7 @@ func (wd *world) checkModel() {
 		if ok, _ := wd.runModel(relax).run(); !ok {
 			continue
 		}
+		wd.explainedBy = relax
 		for _, bit := range []int{relaxStaleTimer, relaxForeignExpiry, relaxInactiveFail} {
 			if relax&bit != 0 {
 				e.Violate(relaxNames[bit], "the observations have no explanation under the model, but they have one if the client is allowed the deviation %q; strict model: %s", relaxNames[bit], detail)
